@@ -71,6 +71,9 @@ def run(R):
                 R.count("%s:%s" % (key, c[key]))
             R.count("ub:" + S["ub_kind"]); R.count("lb:" + S["lb_kind"])
             R.count("shape:%s" % ("under" if ns > nf else ("exact" if ns == nf else "over")))
+            if st == "runtime" and mode == "high":
+                R.count("high-accuracy-solver-did-not-converge"); R.case(c, None)
+                continue
             if st != "ok":
                 R.case(c, None)
                 # which rows make it fail? (search for the failing input: each row alone)
